@@ -22,6 +22,7 @@ def steady_band(N, humans, a, c, gap, rows, change=None):
 
 class C12(scen.WorldProp):
     id = "C12"
+    fuzz_kinds = {"ring", "r_init", "r_bell", "r_setting"}
     lean_module = "Wheatley.Props.C12"
     theorems = ["Wheatley.C12.wls_recovers",
                 "Wheatley.C12.system_nonsingular",
